@@ -1,10 +1,12 @@
 (* C12 - libavoid hyperedges stay spanning trees over the same terminals (DESIGN 5.12).
    Only statements closed by `exact`; proofs live in Graph/UnionFind.v, Graph/Trees.v, Avoid/HyperTree.v.
-   The theorems are about the abstract junction/terminal multigraph and the abstract operations of Avoid/HyperTreeModel.v;
-   the implementation is tied by running the extracted verified checker on the real connector/junction graph after every
-   transaction (checks/c12.py) - validation and search, not proof of hyperedgeimprover.cpp. *)
+   Two levels.  (1) Connector level: the junction/terminal multigraph and the abstract operations of Avoid/HyperTreeModel.v,
+   with the verified checker that checks/c12.py runs on the real connector/junction graph after every transaction.
+   (2) Segment level: the operations libavoid really performs on its HyperedgeTree (Avoid/HyperSegModel.v), tied to the code
+   by hook H2: checks/c12.py replays every logged operation on the extracted model, compares the touched node after each
+   operation and the final tree with the logged ones, and reads the connector level off the final tree with `smooth`. *)
 From Coq Require Import List Arith Permutation.
-From Adapt Require Import Graph.UnionFind Graph.Trees Avoid.HyperTreeModel Avoid.HyperTree.
+From Adapt Require Import Graph.UnionFind Graph.Trees Avoid.HyperTreeModel Avoid.HyperTree Avoid.HyperSegModel Avoid.HyperSeg.
 Import ListNotations.
 
 Theorem C12_tree_checker_sound_complete g T :
@@ -47,3 +49,75 @@ Theorem C12_kruskal_leaves_refuted :
                   is_treeb (kruskal cands) = true /\ is_tree_with_leaves (kruskal cands) T = false.
 Proof. exact (ex_intro _ [1; 2; 3] (ex_intro _ [(1, 2); (2, 3)] kruskal_terminal_interior)). Qed.
 Print Assumptions C12_kruskal_leaves_refuted.
+
+(* ------------------------------------------------------------------ segment level: the operations recorded by hook H2 *)
+(* removeZeroLengthEdges (all its cases) under the degree guard the check evaluates for every logged CONTRACT *)
+Theorem C12_seg_contract_preserves g T a b g' :
+  is_tree g -> leaves_are g T -> contract_any a b g = Some g' -> leaf_safe (deg g a) (deg g b) = true ->
+  is_tree g' /\ leaves_are g' (map (ren b a) T).
+Proof. exact (contract_any_preserves g T a b g'). Qed.
+Print Assumptions C12_seg_contract_preserves.
+
+(* splitFromNodeAtPoint *)
+Theorem C12_seg_subdivide_preserves g T a b n g' :
+  is_tree g -> leaves_are g T -> subdivide a b n g = Some g' -> is_tree g' /\ leaves_are g' T.
+Proof. exact (subdivide_preserves g T a b n g'). Qed.
+Print Assumptions C12_seg_subdivide_preserves.
+
+(* moveJunctionAlongCommonEdge: one merge of two common-edge neighbours; the last merge of a move that empties the old node *)
+Theorem C12_seg_fold_preserves g T s t u g' :
+  is_tree g -> leaves_are g T -> fold s t u g = Some g' -> 3 <= deg g s -> 2 <= deg g t -> 2 <= deg g u ->
+  is_tree g' /\ leaves_are g' T.
+Proof. exact (fold_preserves g T s t u g'). Qed.
+Print Assumptions C12_seg_fold_preserves.
+
+Theorem C12_seg_fold_drop_preserves g T s t u g' :
+  is_tree g -> leaves_are g T -> fold_drop s t u g = Some g' -> deg g s = 2 -> 2 <= deg g t -> 2 <= deg g u ->
+  is_tree g' /\ leaves_are g' T.
+Proof. exact (fold_drop_preserves g T s t u g'). Qed.
+Print Assumptions C12_seg_fold_drop_preserves.
+
+(* any sequence of logged improvement operations whose guards hold keeps "tree whose degree-1 nodes are the terminal leaves",
+   and the number of terminal leaves *)
+Theorem C12_seg_ops ops g T st' :
+  forallb (fun o => negb (is_bridge_op o)) ops = true -> is_tree g /\ leaves_are g T -> run_sops (g, T) ops = Some st' ->
+  (is_tree (fst st') /\ leaves_are (fst st') (snd st')) /\ length (snd st') = length T.
+Proof. exact (seg_ops_preserve ops g T st'). Qed.
+Print Assumptions C12_seg_ops.
+
+(* without the guard every improvement operation still yields a tree: a failing guard is exactly a lost or renamed leaf *)
+Theorem C12_seg_op_tree g o g' : is_bridge_op o = false -> is_tree g -> sop_graph g o = Some g' -> is_tree g'.
+Proof. exact (seg_op_tree g o g'). Qed.
+Print Assumptions C12_seg_op_tree.
+
+(* MTST construction (commitToBridgingEdge): every edge laid joins two components, the result is a forest *)
+Theorem C12_mtst_ops_forest ops g T st' :
+  forallb is_bridge_op ops = true -> acyclic g -> run_sops (g, T) ops = Some st' -> acyclic (fst st').
+Proof. exact (mtst_ops_forest ops g T st'). Qed.
+Print Assumptions C12_mtst_ops_forest.
+
+(* the connector-level reading of a segment-level tree is a tree with the same terminal leaves *)
+Theorem C12_smooth_preserves J g T : is_tree g -> leaves_are g T -> is_tree (smooth J g) /\ leaves_are (smooth J g) T.
+Proof. exact (smooth_preserves J g T). Qed.
+Print Assumptions C12_smooth_preserves.
+
+(* the operation behind finding F-j / terminal_on_tree_path: a zero-length edge between a junction of degree >= 3 and a
+   connector end is contracted like any other - in general, and on a witness from a real op log *)
+Theorem C12_contract_leaf_into_branch_drops g T a b g' :
+  is_tree g -> leaves_are g T -> contract_any a b g = Some g' -> deg g b = 1 -> 3 <= deg g a ->
+  In b T /\ ~ In b (map (ren b a) T) /\ deg g' a >= 2 /\ ~ leaves_are g' (map (ren b a) T).
+Proof. exact (contract_leaf_into_branch_drops g T a b g'). Qed.
+Print Assumptions C12_contract_leaf_into_branch_drops.
+
+Theorem C12_contract_terminal_into_junction_refuted :
+  exists g T a b g',
+    is_tree g /\ leaves_are g T /\ contract_any a b g = Some g' /\ sop_safe g (SContract a b) = false /\
+    is_tree g' /\ ~ leaves_are g' (map (ren b a) T) /\ length (leaves g') < length T.
+Proof. exact contract_terminal_into_junction_refuted. Qed.
+Print Assumptions C12_contract_terminal_into_junction_refuted.
+
+(* a junction move that swallows a connector end loses that terminal *)
+Theorem C12_fold_leaf_drops g T s t u g' :
+  is_tree g -> leaves_are g T -> fold s t u g = Some g' -> deg g u = 1 -> In u T /\ deg g' u = 0 /\ ~ leaves_are g' T.
+Proof. exact (fold_leaf_drops g T s t u g'). Qed.
+Print Assumptions C12_fold_leaf_drops.
